@@ -238,18 +238,36 @@ class Catch:
     def run(self, f, seed=None):
         # scipy's 1-norm estimator (expm, expm_multiply, sqrtm of sparse / matrix-free operators) draws its
         # start vectors from numpy's *global* legacy generator: seed it so that records are reproducible
+        # ... and several scipy routines ask the OS for entropy through np.random.default_rng(None) where no
+        # argument can reach them (eigsh drops `rng` for complex input, so ARPACK restarts after a breakdown
+        # on a degenerate spectrum are random; expm_multiply estimates the trace of a matrix-free operator
+        # with one random probe).  For the duration of the observed call, default_rng(None) hands out
+        # generators seeded from the call counter: the process has no other source of randomness.
         Catch.calls += 1
-        np.random.seed(1_000_003 + Catch.calls if seed is None else seed)
-        with warnings.catch_warnings(record=True) as w:
-            warnings.simplefilter("always")
-            try:
-                with np.errstate(all="ignore"):
-                    self.value = f()
-            except Exception as ex:  # noqa - the spec decides
-                self.exc = type(ex).__name__
-                # an inner iterative solve that says it did not converge (scipy raises a plain ValueError)
-                if self.exc != "ArpackNoConvergence" and any(c in str(ex) for c in self.CONV):
-                    self.exc = "NoConvergence"
+        base = 1_000_003 + Catch.calls if seed is None else seed
+        np.random.seed(base)
+        orig, inner = np.random.default_rng, [0]
+
+        def seeded_default_rng(s=None):
+            if s is None:
+                inner[0] += 1
+                return orig([base, inner[0]])
+            return orig(s)
+
+        np.random.default_rng = seeded_default_rng
+        try:
+            with warnings.catch_warnings(record=True) as w:
+                warnings.simplefilter("always")
+                try:
+                    with np.errstate(all="ignore"):
+                        self.value = f()
+                except Exception as ex:  # noqa - the spec decides
+                    self.exc = type(ex).__name__
+                    # an inner iterative solve that says it did not converge (scipy raises a plain ValueError)
+                    if self.exc != "ArpackNoConvergence" and any(c in str(ex) for c in self.CONV):
+                        self.exc = "NoConvergence"
+        finally:
+            np.random.default_rng = orig
         for x in w:
             if any(c in str(x.message) for c in self.CONV):
                 self.warn = True
